@@ -25,6 +25,7 @@ var sigma = map[string]proj.Day{
 	"calm-dark":     {Tmin: 4, Tavg: 6, Tmax: 8, Precip: 0, Rad: 0, Wind: 0.1, RH: 95, Sun: 2, ET0: 0.3},
 	"no-sun-no-rad": {Tmin: 4, Tavg: 6, Tmax: 8, Precip: 0, Rad: 0, Wind: 1, RH: 95, Sun: 0, ET0: 0.3},
 	"mild":          {Tmin: 6, Tavg: 10, Tmax: 14, Precip: 1, Rad: 10, Wind: 2.5, RH: 75, Sun: 5, ET0: 1.5},
+	"zero-flux":     {Tmin: -1, Tavg: 0.5, Tmax: 2, Precip: 0, Rad: 0.5, Wind: 1, RH: 100, Sun: 0, ET0: 0}, // saturated air, hardly any radiation: potential ET is clipped to 0
 	"hot-shower":    {Tmin: 18, Tavg: 26, Tmax: 34, Precip: 2.5, Rad: 26, Wind: 5, RH: 35, Sun: 12, ET0: 8},
 	"grow":          {Tmin: 10, Tavg: 16, Tmax: 22, Precip: 3, Rad: 18, Wind: 2, RH: 70, Sun: 8, ET0: 3},
 }
